@@ -257,3 +257,7 @@ func Clone(v any) any {
 
 // CloneMap is Clone for a map.
 func CloneMap(m map[string]any) map[string]any { return Clone(m).(map[string]any) }
+
+// IsRequired reports whether removing key from the site must make the
+// configuration invalid (the table's Required list).
+func IsRequired(s *Site, key string) bool { return has(s.Comp.Required, s.Dotted(key)) }
